@@ -397,6 +397,9 @@ class Engine:
         self.findings = []       # definedness findings on this path
         self.obligs = []         # (name, status, detail)
         self.notes = {}
+        self.scratch = {}        # per-path storage for stubs (not serialised)
+        self._assumed = set()    # ids of simplified conditions already in pc
+        self._decided = {}       # id of simplified branch condition -> decision on this path
 
     # -- parameters -------------------------------------------------------
     def param(self, name, lo=None, hi=None):
@@ -479,6 +482,9 @@ class Engine:
             return True
         if z3.is_false(cond):
             return False
+        cid = cond.get_id()
+        if cid in self._decided:
+            return self._decided[cid]
         i = len(self.trace)
         if i >= self.max_decisions:
             raise PathAbort("bound-exceeded", "more than %d decisions" % self.max_decisions)
@@ -516,6 +522,7 @@ class Engine:
                     raise PathAbort("infeasible", "both sides unsat")
         self.trace.append(d)
         self.pc.append(cond if d else z3.Not(cond))
+        self._decided[cid] = d
         return d
 
     def fork_int(self, lo, hi, label="int"):
@@ -550,6 +557,9 @@ class Engine:
                 self.pc.append(z3.Not(z))
         elif self.check_definedness:
             z = z3.simplify(eb == 0)
+            if z.get_id() in self._assumed:
+                return SymReal(ea / eb)
+            self._assumed.add(z.get_id())
             if z3.is_true(z):
                 self._finding("zero-divisor", "divisor identically zero", self.model)
                 raise PathAbort("definedness", "division by zero")
@@ -583,6 +593,10 @@ class Engine:
                 self.pc.append(z3.Not(neg))
         elif self.check_definedness:
             neg = z3.simplify(ex < 0)
+            if neg.get_id() in self._assumed:
+                neg = z3.BoolVal(False)
+            else:
+                self._assumed.add(neg.get_id())
             if z3.is_true(neg):
                 self._finding("negative-radicand", "radicand always negative", self.model)
                 raise PathAbort("definedness", "sqrt of negative")
@@ -768,3 +782,55 @@ class Engine:
 def _short(e, n=120):
     s = str(e).replace("\n", " ")
     return s if len(s) <= n else s[:n - 3] + "..."
+
+
+# ---------------------------------------------------------------- function summaries
+class PredicateSummary:
+    """Disjunction of the true-paths of a small pure predicate over scalar
+    placeholders, computed by exploring the REAL function once
+    (compositional symbolic execution)."""
+
+    def __init__(self, fn, shapes, name="pred"):
+        import numpy as np
+        global ENGINE
+        saved = ENGINE
+        eng = Engine(timeout_ms=5000, max_decisions=200, max_paths=2000, check_definedness=False)
+        self.placeholders = []
+        args = []
+        for ai, shp in enumerate(shapes):
+            a = np.empty(shp, dtype=object)
+            for idx in np.ndindex(shp):
+                v = z3.Real("%s_ph%d_%s" % (name, ai, "_".join(map(str, idx))))
+                a[idx] = SymReal(v)
+                self.placeholders.append((ai, idx, v))
+            args.append(a)
+        true_paths = []
+        self.paths = 0
+
+        def run(e):
+            r = bool(fn(*args))
+            if r:
+                true_paths.append(z3.And(*e.pc) if e.pc else z3.BoolVal(True))
+            return r
+        for rec in eng.explore(run):
+            self.paths += 1
+            if rec["status"] != "ok":
+                raise RuntimeError("summary of %s: path %s %s" % (name, rec["status"], rec.get("msg")))
+        self.formula = z3.simplify(z3.Or(*true_paths)) if true_paths else z3.BoolVal(False)
+        self.queries = eng.stats.queries
+        ENGINE = saved
+
+    def __call__(self, *args):
+        sub = []
+        conc = True
+        for ai, idx, v in self.placeholders:
+            x = args[ai][idx]
+            if isinstance(x, SymReal):
+                conc = False
+            sub.append((v, lift(x)))
+        f = z3.simplify(z3.substitute(self.formula, *sub))
+        if z3.is_true(f):
+            return True
+        if z3.is_false(f):
+            return False
+        return SymBool(f)
